@@ -159,12 +159,13 @@ def traverse_path_step(obj: Any, segment: str) -> Any:
     if isinstance(obj, dict):
         return obj[segment]
 
-    # Attempt list/tuple index
-    try:
-        idx = int(segment)
-        return obj[idx]
-    except (ValueError, TypeError, IndexError):
-        pass
+    # Attempt list/tuple index (a DictLikeModel is a str-keyed mapping: "0" is a key)
+    if not isinstance(obj, DictLikeModel):
+        try:
+            idx = int(segment)
+            return obj[idx]
+        except (ValueError, TypeError, IndexError):
+            pass
 
     # Fallback to attribute access (Pydantic models, normal objects)
     return getattr(obj, segment)
@@ -182,13 +183,14 @@ def assign_path_step(obj: Any, segment: str, value: Any) -> None:
         obj[segment] = value
         return
 
-    # Attempt list/tuple index assignment
-    try:
-        idx = int(segment)
-        obj[idx] = value
-        return
-    except (ValueError, TypeError, IndexError):
-        pass
+    # Attempt list/tuple index assignment (a DictLikeModel is a str-keyed mapping)
+    if not isinstance(obj, DictLikeModel):
+        try:
+            idx = int(segment)
+            obj[idx] = value
+            return
+        except (ValueError, TypeError, IndexError):
+            pass
 
     # Fallback to attribute assignment
     setattr(obj, segment, value)
